@@ -543,14 +543,15 @@ class BlockUploadStream(io.RawIOBase):
             response = self.sdo_client.read_response()
         except SdoCommunicationError:
             response = self._retransmit()
-        res_command, = struct.unpack_from("B", response)
-        seqno = res_command & 0x7F
-        if seqno == self._ackseq + 1:
-            self._ackseq = seqno
         else:
-            # Wrong sequence number
-            response = self._retransmit()
             res_command, = struct.unpack_from("B", response)
+            seqno = res_command & 0x7F
+            if seqno == self._ackseq + 1:
+                self._ackseq = seqno
+            else:
+                # Wrong sequence number
+                response = self._retransmit()
+        res_command, = struct.unpack_from("B", response)
         if self._ackseq >= self.blksize or res_command & NO_MORE_BLOCKS:
             self._ack_block()
         if res_command & NO_MORE_BLOCKS:
@@ -575,6 +576,8 @@ class BlockUploadStream(io.RawIOBase):
                     self._ackseq)
         end_time = time.time() + self.sdo_client.RESPONSE_TIMEOUT
         self._ack_block()
+        # The server continues with a new sub-block, numbered from 1 again
+        self._ackseq = 0
         while time.time() < end_time:
             response = self.sdo_client.read_response()
             res_command, = struct.unpack_from("B", response)
